@@ -64,6 +64,8 @@ const (
 	zzC13RColon       // pkg:name reaches unexported own function (from inside) / a merely inherited name
 	zzC13RConflict    // of two used packages exporting the same name only one copy is kept: lost when retracted
 	zzC13RQualWrite   // (setq p::v x) ignored unless v is exported; (defvar p::v x) overwrites a bound unexported v
+	zzC13RTransitive  // use (and the re-inheriting of unuse) passes on names the used package merely inherits
+	zzC13RDefunInh    // defun of a name inherited as exported-but-undefined makes a local function instead of defining it at home
 	zzC13NRegions
 )
 
@@ -81,9 +83,15 @@ var zzC13RegionID = []string{"",
 	"C13-single-colon-lenient",
 	"C13-conflict-loser-lost",
 	"C13-qualified-write",
+	"C13-use-transitive",
+	"C13-defun-inherited-placeholder",
 }
 
-var zzC13Known = []bool{false, true, true, true, true, true, true, true, true, true, false, true, true, true} // C13-unbound-marker-value fixed (cc03e50)
+// Repaired (their observations are asserted by the main obligations again): every finding but
+// C13-conflict-loser-lost and the two split off when others were repaired: C13-use-transitive (rest of
+// C13-unuse-rebuild and C13-use-copies-all) and C13-defun-inherited-placeholder (rest of
+// C13-defun-not-propagated).
+var zzC13Known = []bool{false, false, false, false, false, false, false, false, false, false, false, false, true, false, true, true}
 
 // ---------------------------------------------------------------------------------------------
 // reference model
@@ -219,7 +227,9 @@ func (m *zzC13Model) zzC13Apply1(op zzC13Op, x int64) bool {
 			case !wasBound:
 				// slip: no function record yet. DefLambda makes one in p (not in o), exported iff p
 				// holds an exported unbound variable placeholder of that name, and pushes it nowhere.
-				if o != p || (m.exp[p][k] && 0 < len(m.zzC13Users(p))) {
+				if o != p {
+					m.zzC13TaintAll(zzC13RDefunInh, k)
+				} else if m.exp[p][k] && 0 < len(m.zzC13Users(p)) {
 					m.zzC13TaintAll(zzC13RDefun, k)
 				}
 			case o != p:
@@ -315,7 +325,7 @@ func (m *zzC13Model) zzC13Apply1(op zzC13Op, x int64) bool {
 						m.taint[zzC13RUse][u][k2] = true // own entry overwritten
 					}
 				} else if !m.present[q][k2] && 0 < len(m.zzC13Cands(q, k2)) {
-					m.taint[zzC13RUse][u][k2] = true // entry q merely inherits is passed on
+					m.taint[zzC13RTransitive][u][k2] = true // entry q merely inherits is passed on
 				}
 			}
 		}
@@ -338,8 +348,10 @@ func (m *zzC13Model) zzC13Apply1(op zzC13Op, x int64) bool {
 					if m.present[r][k2] && m.exp[r][k2] {
 						continue
 					}
-					if m.present[r][k2] || 0 < len(m.zzC13Cands(r, k2)) {
-						m.taint[zzC13RUnuse][u][k2] = true
+					if m.present[r][k2] {
+						m.taint[zzC13RUnuse][u][k2] = true // unexported entry of r copied
+					} else if 0 < len(m.zzC13Cands(r, k2)) {
+						m.taint[zzC13RTransitive][u][k2] = true // entry r merely inherits copied
 					}
 				}
 			}
@@ -398,8 +410,10 @@ func (m *zzC13Model) zzC13Region(form, cur, t, k int, cands []int, out zzC13Out)
 	if form != 0 {
 		ctx = t
 	}
+	// (the taint of a repaired finding no longer classifies: the observation is asserted unless it
+	// also lies in the region of a finding that is still open)
 	for r := 1; r < zzC13NRegions; r++ {
-		if m.taint[r][ctx][k] {
+		if m.taint[r][ctx][k] && zzC13Known[r] {
 			return r
 		}
 	}
